@@ -51,7 +51,9 @@ func (x *Exec) ret(s *State, rs []Val) bool {
 	case fkDefer:
 		// re-execute the RunDefers instruction: it pops the next entry
 	case fkUnwind:
-		// stepUnwind continues
+		// the deferred call is over: unwinding (or the normal return after a
+		// recover) continues in stepUnwind
+		s.unwind = true
 	}
 	return true
 }
@@ -93,6 +95,10 @@ func (x *Exec) runDeferred(s *State, de *deferEntry, kind int) bool {
 	}
 	if de.call.IsInvoke() {
 		x.unsup("deferred interface call")
+	}
+	if kind == fkUnwind {
+		// the deferred function itself runs normally
+		s.unwind = false
 	}
 	switch fv := de.fnVal.(type) {
 	case *ClosureVal:
@@ -283,6 +289,7 @@ func (x *Exec) builtin(s *State, v *ssa.Call, b *ssa.Builtin) bool {
 		if s.panicVal != nil && fr.kind == fkUnwind {
 			pv := *s.panicVal
 			s.panicVal = nil
+			s.recovered = &pv
 			s.set(v, pv)
 		} else {
 			s.set(v, Term{"any.nil", sortAny})
@@ -413,6 +420,9 @@ func (x *Exec) invokeIface(s *State, v *ssa.Call) bool {
 			x.unsup("method %s of %s not found", mname, a.con.typ)
 		}
 		payload := w.unbox(a.con, recv)
+		if wt := st.wellTyped(payload, a.con.typ); wt.S != "true" {
+			st.assume(wt)
+		}
 		ok := x.invoke(st, m, append([]Val{payload}, args...), nil, v, fkCall)
 		if st != s {
 			if ok && !st.dead {
@@ -524,14 +534,14 @@ func (x *Exec) applyContract(s *State, c *Contract, key string, sig *types.Signa
 			site = fmt.Sprintf("@%d", x.siteOrdinal(s.frame.fn, instrKind(callInstr), callInstr))
 		}
 	}
-	for _, r := range c.Requires {
+	for ri, r := range c.Requires {
 		t, err := env.evalBool(r.Expr, r.Src)
 		if err != nil {
 			x.unsup("%v (%s)", err, r.Where)
 		}
 		name := r.Name()
 		if name == "" {
-			name = "requires"
+			name = fmt.Sprintf("requires%d", ri+1)
 		}
 		props := r.Props()
 		s.goal(fmt.Sprintf("%s#pre:%s:%s%s", x.entryKey, key, name, site), "pre", props, t, x.posOf(callInstr), r.Src)
@@ -567,6 +577,7 @@ func (x *Exec) applyContract(s *State, c *Contract, key string, sig *types.Signa
 		s.alloc = na
 	}
 	var panicState *State
+	panicLabel := ""
 	if c.MayPanic {
 		panicState = s.fork()
 	}
@@ -612,7 +623,14 @@ func (x *Exec) applyContract(s *State, c *Contract, key string, sig *types.Signa
 		}
 		short = strings.TrimPrefix(short, "type:")
 		lbl := fmt.Sprintf("%s_%d", short, x.calleeOrdinal(s.frame.fn, key, callInstr))
-		s.setLabel(lbl)
+		var rvs []SVal
+		for i, r := range rs {
+			rvs = append(rvs, SVal{t: r.(Term), gt: res.At(i).Type()})
+		}
+		s.setLabel(lbl, rvs)
+		if panicState != nil {
+			panicLabel = lbl + "_panic"
+		}
 	}
 	if panicState != nil {
 		ps := panicState
@@ -637,7 +655,10 @@ func (x *Exec) applyContract(s *State, c *Contract, key string, sig *types.Signa
 		}
 		ps.panicVal = &pv
 		ps.unwind = true
-		ps.comment("callee %s panics", key)
+		if panicLabel != "" {
+			ps.setLabel(panicLabel, []SVal{{t: pv}})
+		}
+		ps.comment("callee %s panics (frame %s, %d deferred calls pending)", key, ps.frame.fn.Name(), len(ps.frame.defers))
 		x.work = append(x.work, ps)
 	}
 	return x.finishCall(s, callInstr, rs, kind)
